@@ -16,7 +16,8 @@ Inductive ores :=
 | OErr (e : exn)
 | OObj (o : oobj)
 | OSeen (l : list (cls * oobj * bool))          (* entry class, what get returned, same instance as the written one *)
-| OObjs (l : list oobj) (n : Z) (from : list cls).
+| OObjs (l : list oobj) (n : Z) (from : list cls)
+| OVal (v : option Z).                          (* one attribute read through a held instance *)
 
 (* a step of the extended history language (Model/InheritInst.v); `c_inst`: the history was run on ONE identity map
    (instance layer: cached values, sync / expire, out-of-band UPDATEs); otherwise the operations are all `Old` ones
@@ -72,6 +73,7 @@ Definition res_eqb (m : res) (o : ores) : bool :=
   | ROk, OOk | RSkip, OSkip => true
   | RErr a, OErr b => exn_eqb a b
   | RObj a, OObj b => obj_full_eqb a b
+  | RObj a, OVal v => list_eqb oz_eqb (ovals a) [v]
   | RSeen l, OSeen l' => match l with
                          | [] => false
                          | m0 :: _ => seen_eqb (chain (ocls m0)) l l'
